@@ -104,6 +104,7 @@ def future_source(body, pollcs):
 
 
 POLL_FN = 'core::future::poll_fn::poll_fn'
+TIMEOUT_WRAPPERS = ('tokio::time::timeout::timeout_at', 'tokio::time::timeout::timeout')
 
 
 PIN_FORMS = ('core::pin::Pin::new_unchecked', 'core::pin::Pin::new', 'core::pin::Pin::as_mut')
@@ -262,6 +263,12 @@ def _sem_org(body, org, transparent, depth, want=None):
                     if vn.startswith('_') and vn[1:].isdigit() and int(vn[1:]) < len(futs) and futs[int(vn[1:])] is not None:
                         return _sem_call(body, futs[int(vn[1:])], tuple(rest[2:]), transparent, depth)
                 return Sem('select', cs=src, proj=rest)
+            if src.is_(*TIMEOUT_WRAPPERS) and len(src.args) >= 2:
+                # `timeout_at(deadline, fut).await` / `timeout(d, fut).await`: the Ok payload is the awaited value of `fut`
+                r2 = _strip(rest, 'Ok')
+                inner = _future_creator(body, src.args[1]) if r2 is not None else None
+                if inner is not None and hasattr(inner, 'is_'):
+                    return _sem_call(body, inner, r2, transparent, depth)
             return _sem_call(body, src, rest, transparent, depth)
         if cs.is_(TRY_BRANCH):
             rest = _strip(proj, 'Continue')
